@@ -41,7 +41,7 @@ def main(argv=None):
         else:
             only = None
         mod.run(M, rep, tier, only)
-        if tier == "thorough" and hasattr(mod, "selfcheck") and not a.replay:
+        if tier == "thorough" and not a.replay and not os.environ.get("NIXSA_EVIDENCE_DIR"):
             from . import selfcheck
             selfcheck.run(prop, mod, rep)
         return rep.finish()
